@@ -87,7 +87,7 @@ for _t0 in range(len(TYPES)):
     gen(_C13.format(t0=_t0, tname=TYPES[_t0].name.lower()), globals())
 
 
-@cond(timeout=900, encodes=ENC, tiers=("thorough",),
+@cond(timeout=3000, encodes=ENC, tiers=("thorough",),
       bound="layout with 3 placeholders of symbolic types (8 each), all horizontal, own geometry for the middle one only")
 def new_slide_mirrors_layout_three(t0: int, t1: int, t2: int, x: int, y: int, cx: int, cy: int) -> bool:
     """
